@@ -688,9 +688,14 @@ func heldCase(c *vlib.Ctx, id string, r *vlib.Rand) {
 		var dv V
 		p := vlib.Catch(func() { d = value.ReadValue(gio.NewDataInputX(o.raw)); dv = valgen.FromGolib(d) })
 		if ok, path := valgen.Equal(o.v, dv); p != nil || !ok {
-			h.fail("DataOutputX.ToByteArray:result-altered-later",
-				fmt.Sprintf("at the end of the case the slice returned for the encoding of %s no longer decodes to its model (differs at %s, panic %v)", o.name, path, p),
-				map[string]interface{}{"model": valgen.Render(o.v, 2000), "returned_slice_now_hex": vlib.Hex(o.raw), "was_hex": vlib.Hex(o.cp)})
+			// the bytes themselves were compared with their copy just above: they are what they were
+			typ, leafName := refcodec.ValueTagName(o.v.Tag), "decode-panics"
+			if path != "" {
+				leafName = lastSegments(valgen.PathKind(path), 1)
+			}
+			h.fail(innerTypeOr(path, typ)+":not-restored@"+leafName+"/multi-object",
+				fmt.Sprintf("at the end of the case the (unchanged) encoding of %s no longer decodes to its model (differs at %s, panic %v)", o.name, path, p),
+				map[string]interface{}{"model": valgen.Render(o.v, 2000), "decoded_now": valgen.Render(dv, 2000), "encoding_hex": vlib.Hex(o.cp)})
 			return
 		}
 		h.cnt["held_final_decodes"]++
